@@ -23,6 +23,8 @@ CONST_FILE = os.path.join(shim.REPO_SRC, "constants", "general_const.py")
 OUT = os.path.join(os.path.dirname(os.path.dirname(os.path.dirname(os.path.abspath(__file__)))),
                    "lean", "LdarModel", "Generated", "EmissionSrc.lean")
 
+OUT_DRV = os.path.join(os.path.dirname(OUT), "EmissionSrcMain.lean")
+
 FINALS = {"RepairableEmission": "RE", "NonRepairableEmission": "NRE",
           "IntermittentRepairableEmission": "IRE", "IntermittentNonRepairableEmission": "INRE"}
 
@@ -146,8 +148,19 @@ def generate():
     if old != text:
         with open(OUT, "w") as fh:
             fh.write(text)
+    # executable driver of the translated functions (translation validation, harness/props/_tie.py)
+    entries = [(f"{short}.{m}", n) for short, m, n, _sig in aliases if n is not None]
+    drv, field_order = P.driver_text(tr, entries, ["LdarModel.Generated.EmissionSrc"],
+                                     ["LdarModel.Emission (Status By)", "LdarModel.EmissionSrc"],
+                                     "LdarModel.EmissionSrcDrv")
+    oldd = open(OUT_DRV).read() if os.path.exists(OUT_DRV) else None
+    if oldd != drv:
+        with open(OUT_DRV, "w") as fh:
+            fh.write(drv)
     return {"translated": [n for n in tr.order], "untranslated": untranslated, "mros": mros,
-            "constants": consts, "changed": old != text}
+            "constants": consts, "changed": old != text, "field_order": field_order,
+            "entries": {pub: [[a, t] for a, t in tr.sigs[n][0]] for pub, n in entries},
+            "ret_parts": {pub: tr.ret_parts[n] for pub, n in entries}}
 
 
 def extract():
